@@ -13,4 +13,20 @@ PROPS = {
         "text": "Complete enumeration of indexed operand spaces (lane-isolation products of the special lattice, all pairs of the exponent x mantissa-shape grid, all 2^32 bit patterns through every lane for unary f32 ops in the thorough tier, a declared band sub-lattice in the quick tier) for every element-wise operation of the seven float vector types, each compared lane-wise with the Rust primitive, in every build configuration that runs here.",
         "note": TRUST + "; binary f32 pairs outside GRID^2 and f64 values outside the grid are not enumerated",
     },
+    "C13": {
+        "quick": ["sse2", "sse2-dbg"], "thorough": ["sse2", "sse2-dbg", "scalar"],
+        "level": "exploration", "engine": "E1-sweep",
+        "technique": "bounded exhaustive enumeration (all 65536 operand pairs for 8-bit types, boundary lattice pairs for wider) on the real code vs the primitive per lane, panic parity by execution in the same profile",
+        "design_ref": "DESIGN.md §3 C13",
+        "text": "For each of the 27 integer vector types every operator/method (vector, scalar, ref and assign forms, shifts by every count type, checked/wrapping/saturating incl. mixed signedness, reductions, Sum/Product) is executed under catch_unwind on complete operand products with lane isolation and compared with the primitive executed per lane in the same build profile (release and overflow-checking dev).",
+        "note": TRUST + "; for 32/64-bit lanes only the boundary lattice (not all values) is enumerated; reductions accept either outcome only where some association overflows and another does not",
+    },
+    "C14": {
+        "quick": ["sse2", "scalar"], "thorough": ["sse2", "scalar", "coresimd"],
+        "level": "exploration", "engine": "E1-sweep",
+        "technique": "inventory-driven exhaustive enumeration of source lane lattices for every conversion impl of the tree vs `as`/From/TryFrom per lane (all 2^32 f32 patterns for f32->int casts)",
+        "design_ref": "DESIGN.md §3 C14",
+        "text": "The list of as_* methods, From/TryFrom impls, extend/truncate is extracted from the working tree (880 conversions); each is run over the complete source lattice (all values of 8/16-bit sources, boundary lattices for wider ones, every f32 bit pattern for f32->integer casts) rotated through / isolated in every lane and compared with the primitive conversion; pure moves are compared bit-for-bit on tagged lanes.",
+        "note": TRUST + "; raw-register conversions are excluded as the statement says; 32/64-bit and f64 sources are covered on boundary lattices only",
+    },
 }
